@@ -246,6 +246,13 @@ def apply(root, fns, mode):
                 if bl < len(lines) and lines[bl].rstrip().endswith("{") and "namespace" not in lines[bl] and not f.get("constexpr"):
                     lines[bl] = lines[bl].rstrip() + " [[maybe_unused]] const int verif_pad_nv = 0;"
                     total += 1
+            if mode == "emplace":
+                # v.push_back(x) -> v.emplace_back(x) for one-line calls whose argument is not a braced list
+                for i_ in range(f["l"] - 1, min(f["l_end"], len(lines))):
+                    s_ = lines[i_]
+                    if ".push_back(" in s_ and "push_back({" not in s_ and "push_back( {" not in s_ and "//" not in s_ and s_.rstrip().endswith(";") and s_.count("(") == s_.count(")"):
+                        lines[i_] = s_.replace(".push_back(", ".emplace_back(")
+                        total += 1
             if mode == "compound":
                 total += compound_in_range(lines, f["l"], f["l_end"], arith_names(f))
             if mode == "flip":
